@@ -1,797 +1,6 @@
-// C12 harness: the same points written into clusters of different physical layout (shard count, placement of shards
-// on storage nodes, with or without compute brokers) and the same statements answered by the real root search, the
-// real intermediate and leaf processors, under a delivery order of the responses picked per run.  A case pairs the
-// run on the reference layout (one shard, one node) with the run on another layout.
+// C12 harness (see package qh).
 package main
 
-import (
-	"context"
-	"fmt"
-	"os"
-	"path/filepath"
-	"sort"
-	"strings"
-	"time"
+import "lindbverif/qh"
 
-	commonmodels "github.com/lindb/common/models"
-	protoMetricsV1 "github.com/lindb/common/proto/gen/v1/linmetrics"
-
-	"github.com/lindb/lindb/models"
-	"github.com/lindb/lindb/pkg/option"
-	"github.com/lindb/lindb/pkg/timeutil"
-	"github.com/lindb/lindb/query"
-	querycontext "github.com/lindb/lindb/query/context"
-	"github.com/lindb/lindb/sql"
-	stmtpkg "github.com/lindb/lindb/sql/stmt"
-
-	"lindbverif/vh"
-)
-
-var (
-	intervals = option.Intervals{{Interval: timeutil.Interval(10 * 1000), Retention: timeutil.Interval(int64(200*365) * 24 * 3600 * 1000)}}
-	baseTime  int64 // 2023-06-15 10:00:00 local time: the SQL text is local time
-)
-
-var fieldDefs = []struct {
-	name string
-	pt   protoMetricsV1.SimpleFieldType
-}{
-	{"f1", protoMetricsV1.SimpleFieldType_DELTA_SUM},
-	{"f2", protoMetricsV1.SimpleFieldType_Min},
-	{"f3", protoMetricsV1.SimpleFieldType_Max},
-	{"f4", protoMetricsV1.SimpleFieldType_LAST},
-	{"f5", protoMetricsV1.SimpleFieldType_FIRST},
-}
-var funcNames = []string{"", "sum", "min", "max", "last", "first"}
-var metricNames = []string{"m", "m2", "m3"}
-var hosts = []string{"h0", "h1", "h2", "h3", "h4", "h5", "h6", "h7"}
-var zones = []string{"za", "zb", "zc"}
-
-type point struct {
-	Metric int         `json:"metric"`
-	Host   int         `json:"host"`
-	Zone   int         `json:"zone"`
-	Slot   int         `json:"slot"` // storage slot (10s) counted from baseTime
-	Vals   map[int]int `json:"values"`
-}
-
-func (p point) proto() *protoMetricsV1.Metric {
-	pm := &protoMetricsV1.Metric{Name: metricNames[p.Metric], Namespace: "ns", Timestamp: baseTime + int64(p.Slot)*10000 + 1234,
-		Tags: []*protoMetricsV1.KeyValue{{Key: "host", Value: hosts[p.Host]}, {Key: "zone", Value: zones[p.Zone]}}}
-	for _, f := range sortedKeys(p.Vals) {
-		pm.SimpleFields = append(pm.SimpleFields, &protoMetricsV1.SimpleField{Name: fieldDefs[f].name, Type: fieldDefs[f].pt, Value: float64(p.Vals[f])})
-	}
-	return pm
-}
-
-func sortedKeys(m map[int]int) []int {
-	var ks []int
-	for k := range m {
-		ks = append(ks, k)
-	}
-	sort.Ints(ks)
-	return ks
-}
-
-// ---- statements ----
-
-type itemJ struct {
-	Field int `json:"field"` // 0..4 = f1..f5, 8 = a field nobody wrote
-	Func  int `json:"func"`  // 0 none, 1 sum, 2 min, 3 max, 4 last, 5 first
-}
-type filterJ struct {
-	Key    int   `json:"key"` // 0 host, 1 zone
-	Values []int `json:"values"`
-}
-type queryJ struct {
-	Metric int       `json:"metric"` // 9: a metric nobody wrote
-	Items  []itemJ   `json:"items"`
-	Filter []filterJ `json:"filter,omitempty"`
-	Group  []int     `json:"group,omitempty"`
-	Lo     int       `json:"lo"`
-	Hi     int       `json:"hi"`
-	Ivl    int       `json:"interval_s,omitempty"` // group by time(..), seconds; 0: none
-	SQL    string    `json:"sql"`
-}
-
-func tstr(slot int) string {
-	return time.UnixMilli(baseTime + int64(slot)*10000).Format("2006-01-02 15:04:05")
-}
-func fieldName(f int) string {
-	if f < len(fieldDefs) {
-		return fieldDefs[f].name
-	}
-	return fmt.Sprintf("f%d", f+1)
-}
-func tagValue(key, v int) string {
-	if key == 0 {
-		if v < len(hosts) {
-			return hosts[v]
-		}
-		return "nohost"
-	}
-	if v < len(zones) {
-		return zones[v]
-	}
-	return "nozone"
-}
-func (it itemJ) text() string {
-	if it.Func == 0 {
-		return fieldName(it.Field)
-	}
-	return funcNames[it.Func] + "(" + fieldName(it.Field) + ")"
-}
-func (q *queryJ) render() {
-	var items []string
-	for _, it := range q.Items {
-		items = append(items, it.text())
-	}
-	mname := "nometric"
-	if q.Metric < len(metricNames) {
-		mname = metricNames[q.Metric]
-	}
-	var conds []string
-	for _, f := range q.Filter {
-		key := []string{"host", "zone"}[f.Key]
-		if len(f.Values) == 1 {
-			conds = append(conds, fmt.Sprintf("%s='%s'", key, tagValue(f.Key, f.Values[0])))
-		} else {
-			var vs []string
-			for _, v := range f.Values {
-				vs = append(vs, "'"+tagValue(f.Key, v)+"'")
-			}
-			conds = append(conds, fmt.Sprintf("%s in (%s)", key, strings.Join(vs, ",")))
-		}
-	}
-	conds = append(conds, fmt.Sprintf("time>='%s' and time<='%s'", tstr(q.Lo), tstr(q.Hi)))
-	s := "select " + strings.Join(items, ",") + " from " + mname + " on 'ns' where " + strings.Join(conds, " and ")
-	var gs []string
-	for _, g := range q.Group {
-		gs = append(gs, []string{"host", "zone"}[g])
-	}
-	if q.Ivl > 0 {
-		gs = append(gs, fmt.Sprintf("time(%ds)", q.Ivl))
-	}
-	if len(gs) > 0 {
-		s += " group by " + strings.Join(gs, ",")
-	}
-	q.SQL = s + " limit 100"
-}
-
-// ---- observation ----
-
-type entryJ struct {
-	Item  int   `json:"item"`
-	Group []int `json:"group"`
-	Slot  int64 `json:"slot"`
-	Val   int64 `json:"value"`
-}
-type obsJ struct {
-	Err     string   `json:"err,omitempty"`
-	Code    int      `json:"code"` // 0 answer, 1 timeout, 2 not found, 3 other error
-	Entries []entryJ `json:"entries"`
-	Order   []int    `json:"order"` // storage nodes in the order their answers were handed to the receiver
-	Dropped []string `json:"dropped,omitempty"`
-}
-
-func indexOf(xs []string, v string) int {
-	for i, x := range xs {
-		if x == v {
-			return i
-		}
-	}
-	return 99
-}
-
-func (c *cluster) run(q *queryJ) (obsJ, string) {
-	st, err := sql.Parse(q.SQL)
-	if err != nil {
-		return obsJ{Err: "parse: " + err.Error(), Code: 3}, "parse"
-	}
-	stq, ok := st.(*stmtpkg.Query)
-	if !ok {
-		return obsJ{Err: "not a query", Code: 3}, "parse"
-	}
-	c.dropped, c.log, c.deliv = nil, nil, nil
-	c.held = map[string]*pending{}
-	stop := make(chan struct{})
-	done := make(chan struct{})
-	go func() { c.pump(stop); close(done) }()
-	root := c.brokers[0]
-	sctx, cancel := context.WithTimeout(context.Background(), c.timeout)
-	defer cancel()
-	rs, err := query.MetricDataSearch(sctx, &models.ExecuteParam{Database: logicalDB, SQL: q.SQL}, stq,
-		&query.SearchMgr{CurNode: *root.node, Choose: &stateMgr{c: c}, TaskMgr: root.taskMgr,
-			TransportMgr: &transport{c: c, self: root.name}, Timeout: c.timeout})
-	close(stop)
-	<-done
-	var o obsJ
-	if err != nil {
-		o.Err = err.Error()
-		switch {
-		case strings.Contains(o.Err, "timeout"):
-			o.Code = 1
-		case strings.Contains(o.Err, "not found"):
-			o.Code = 2
-		default:
-			o.Code = 3
-		}
-	} else {
-		res := rs.(*commonmodels.ResultSet)
-		names := map[string]int{}
-		for i, it := range q.Items {
-			names[it.text()] = i
-		}
-		for _, s := range res.Series {
-			var g []int
-			for _, k := range q.Group {
-				if k == 0 {
-					g = append(g, indexOf(hosts, s.Tags["host"]))
-				} else {
-					g = append(g, indexOf(zones, s.Tags["zone"]))
-				}
-			}
-			for name, pts := range s.Fields {
-				item, ok := names[name]
-				if !ok {
-					return obsJ{Err: "unexpected column " + name, Code: 3}, "column"
-				}
-				for ts, v := range pts {
-					if float64(int64(v)) != v {
-						return obsJ{Err: fmt.Sprintf("non-integer value %v", v), Code: 3}, "value"
-					}
-					o.Entries = append(o.Entries, entryJ{Item: item, Group: g, Slot: (ts - res.StartTime) / res.Interval, Val: int64(v)})
-				}
-			}
-		}
-		sort.Slice(o.Entries, func(i, j int) bool {
-			a, b := o.Entries[i], o.Entries[j]
-			if a.Item != b.Item {
-				return a.Item < b.Item
-			}
-			if fmt.Sprint(a.Group) != fmt.Sprint(b.Group) {
-				return fmt.Sprint(a.Group) < fmt.Sprint(b.Group)
-			}
-			return a.Slot < b.Slot
-		})
-	}
-	// the order at the first receiver that got answers of storage nodes
-	recv := ""
-	seen := map[int]bool{}
-	for _, d := range c.deliv {
-		idx := -1
-		for i, s := range c.storage {
-			if s.name == d[1] {
-				idx = i
-			}
-		}
-		if idx < 0 {
-			continue
-		}
-		if recv == "" {
-			recv = d[0]
-		}
-		if d[0] == recv && !seen[idx] {
-			seen[idx] = true
-			o.Order = append(o.Order, idx)
-		}
-	}
-	for i := range c.storage {
-		if !seen[i] {
-			o.Order = append(o.Order, i)
-		}
-	}
-	o.Dropped = c.dropped
-	return o, ""
-}
-
-// ---- Coq rendering ----
-
-func natList(xs []int) string {
-	var ss []string
-	for _, x := range xs {
-		ss = append(ss, fmt.Sprintf("%d%%nat", x))
-	}
-	return vh.List(ss)
-}
-
-func pointsCoq(pts []point) string {
-	var ss []string
-	for _, p := range pts {
-		for _, f := range sortedKeys(p.Vals) {
-			ss = append(ss, fmt.Sprintf("mkPoint %d %s %s %d %s", p.Metric, natList([]int{p.Host, p.Zone}), vh.Z(int64(p.Slot)), f, vh.Z(int64(p.Vals[f]))))
-		}
-	}
-	return vh.List(ss)
-}
-
-func queryCoq(q *queryJ, lo, hi, ratio int64) string {
-	var items, filt []string
-	for _, it := range q.Items {
-		items = append(items, fmt.Sprintf("(%d%%nat, %d%%nat)", it.Field, it.Func))
-	}
-	for _, f := range q.Filter {
-		filt = append(filt, fmt.Sprintf("(%d%%nat, %s)", f.Key, natList(f.Values)))
-	}
-	return fmt.Sprintf("(mkQuery %d %s %s %s %s %s %s)", q.Metric, vh.List(items), vh.List(filt), natList(q.Group), vh.Z(lo), vh.Z(hi), vh.Z(ratio))
-}
-
-func descCoq(lay layoutJ, routes map[[2]int]int, order []int) string {
-	var keys [][2]int
-	for k := range routes {
-		keys = append(keys, k)
-	}
-	sort.Slice(keys, func(i, j int) bool {
-		return keys[i][0] < keys[j][0] || (keys[i][0] == keys[j][0] && keys[i][1] < keys[j][1])
-	})
-	var rs []string
-	for _, k := range keys {
-		rs = append(rs, fmt.Sprintf("(%s, %d%%nat)", natList([]int{k[0], k[1]}), routes[k]))
-	}
-	return fmt.Sprintf("(mkDesc %s %d %s %d %d %s %s)", vh.List(rs), lay.NumShards, natList(lay.Place), lay.Nodes, lay.Brokers, vh.Bool(lay.Self), natList(order))
-}
-
-func obsCoq(o obsJ) string {
-	if o.Code != 0 {
-		return fmt.Sprintf("(OErr %d)", o.Code)
-	}
-	var es []string
-	for _, e := range o.Entries {
-		es = append(es, fmt.Sprintf("(%d%%nat, %s, %s, %s)", e.Item, natList(e.Group), vh.Z(e.Slot), vh.Z(e.Val)))
-	}
-	return "(ORes " + vh.List(es) + ")"
-}
-
-// ---- worlds ----
-
-type world struct {
-	Name    string    `json:"name"`
-	Points  []point   `json:"points"`
-	FlushAt int       `json:"flush_after,omitempty"` // flush everything after this many points (0: never)
-	Dups    bool      `json:"rewrites,omitempty"`    // some (series, slot) are written more than once; statements then use the fields' own aggregation only
-	Queries []*queryJ `json:"-"`
-	Layouts []layoutJ `json:"-"`
-}
-
-func genPoints(r *vh.Rand, dups bool) ([]point, int) {
-	var pts []point
-	used := map[[3]int]bool{}
-	fresh := func(p point) bool {
-		k := [3]int{p.Metric, p.Host, p.Slot}
-		if used[k] && !dups {
-			return false
-		}
-		used[k] = true
-		return true
-	}
-	nh := r.Range(3, 8)
-	n := r.Range(20, 55)
-	span := 40
-	if r.Chance(25) {
-		span = 400 // second family hour
-	}
-	for i := 0; i < n; i++ {
-		p := point{Metric: 0, Host: r.Intn(nh), Vals: map[int]int{}}
-		p.Zone = p.Host % 3
-		if span > 40 && r.Chance(40) {
-			p.Slot = 355 + r.Intn(20)
-		} else {
-			p.Slot = r.Intn(40)
-		}
-		for f := 0; f < 5; f++ {
-			if r.Chance(65) {
-				p.Vals[f] = r.Range(1, 60)
-			}
-		}
-		if len(p.Vals) == 0 {
-			p.Vals[0] = r.Range(1, 60)
-		}
-		if fresh(p) {
-			pts = append(pts, p)
-		}
-	}
-	// a metric only one or two series have
-	k := r.Range(1, 2)
-	for i := 0; i < k*3; i++ {
-		h := r.Intn(k)
-		p := point{Metric: 1, Host: h, Zone: h % 3, Slot: r.Intn(30), Vals: map[int]int{0: r.Range(1, 60), 2: r.Range(1, 60)}}
-		if fresh(p) {
-			pts = append(pts, p)
-		}
-	}
-	// a metric whose series each carry one field only
-	if r.Chance(30) {
-		for h := 0; h < nh; h++ {
-			for j := 0; j < 2; j++ {
-				p := point{Metric: 2, Host: h, Zone: h % 3, Slot: r.Intn(30), Vals: map[int]int{h % 2: r.Range(1, 60)}}
-				if fresh(p) {
-					pts = append(pts, p)
-				}
-			}
-		}
-	}
-	// shuffle so that the metrics interleave
-	perm := r.Perm(len(pts))
-	out := make([]point, len(pts))
-	for i, j := range perm {
-		out[i] = pts[j]
-	}
-	flushAt := 0
-	if r.Chance(35) {
-		flushAt = r.Range(5, len(out)-1)
-	}
-	return out, flushAt
-}
-
-func genQuery(r *vh.Rand, pts []point, dups, flushed bool) *queryJ {
-	q := &queryJ{Metric: 0, Lo: 0, Hi: 60}
-	hasM3 := false
-	maxSlot := 0
-	for _, p := range pts {
-		if p.Metric == 2 {
-			hasM3 = true
-		}
-		if p.Slot > maxSlot {
-			maxSlot = p.Slot
-		}
-	}
-	switch {
-	case r.Chance(12):
-		q.Metric = 1
-	case hasM3 && r.Chance(25):
-		q.Metric = 2
-	case r.Chance(3):
-		q.Metric = 9
-	}
-	pool := []int{0, 1, 2, 3, 4}
-	if dups || flushed {
-		// a slot's value spread over several physical sources (files, memory block and window) is C11's subject:
-		// these worlds stay with the order-insensitive field types
-		pool = []int{0, 1, 2}
-	}
-	if q.Metric == 1 {
-		pool = []int{0, 2}
-	}
-	if q.Metric == 2 {
-		pool = []int{0, 1}
-	}
-	n := r.Range(1, 3)
-	seen := map[string]bool{}
-	for i := 0; i < n; i++ {
-		it := itemJ{Field: pool[r.Intn(len(pool))]}
-		if r.Chance(50) {
-			// functions the field type supports (series/field/type.go IsFuncSupported)
-			sup := [][]int{{1, 2, 3}, {2}, {3}, {1, 2, 3, 4}, {1, 2, 3, 5}}[it.Field]
-			it.Func = sup[r.Intn(len(sup))]
-			if r.Chance(3) {
-				it.Func = r.Range(1, 5)
-			}
-		}
-		if (it.Field == 3 || it.Field == 4) && r.Chance(60) {
-			// last/first fields mostly with an order-insensitive function, the rest is for the open finding
-			it.Func = r.Range(1, 3)
-		}
-		if dups {
-			it.Func = 0
-		}
-		if r.Chance(2) {
-			it.Field, it.Func = 8, 0
-		}
-		if seen[it.text()] {
-			continue
-		}
-		seen[it.text()] = true
-		q.Items = append(q.Items, it)
-	}
-	if r.Chance(45) {
-		f := filterJ{Key: r.Intn(2)}
-		m := r.Range(1, 3)
-		for i := 0; i < m; i++ {
-			if f.Key == 0 {
-				f.Values = append(f.Values, r.Intn(9)) // 8 = a host nobody wrote
-			} else {
-				f.Values = append(f.Values, r.Intn(4))
-			}
-		}
-		q.Filter = append(q.Filter, f)
-		if r.Chance(20) {
-			q.Filter = append(q.Filter, filterJ{Key: 1 - f.Key, Values: []int{r.Intn(3)}})
-		}
-	}
-	switch r.Intn(10) {
-	case 0, 1, 2:
-		q.Group = []int{0}
-	case 3, 4:
-		q.Group = []int{1}
-	case 5:
-		q.Group = []int{0, 1}
-	case 6:
-		q.Group = []int{1, 0}
-	}
-	if r.Chance(30) {
-		q.Ivl = []int{30, 60, 60, 120}[r.Intn(4)]
-	}
-	for _, it := range q.Items {
-		// last / first over several storage slots of one series is decided by the order of the physical sources
-		// (memory block, write window, files), C11's subject: such items keep the storage interval
-		if it.Field < 5 && (it.Field == 3 || it.Field == 4) && (it.Func == 0 || it.Func == 4 || it.Func == 5) {
-			q.Ivl = 0
-		}
-	}
-	switch r.Intn(6) {
-	case 0:
-		q.Lo, q.Hi = r.Range(1, 12), r.Range(20, 45)
-	case 1:
-		q.Lo, q.Hi = 0, maxSlot+5
-	default:
-		q.Lo, q.Hi = 0, 60
-		if maxSlot > 60 {
-			q.Hi = maxSlot + 6
-		}
-	}
-	q.render()
-	return q
-}
-
-func genLayout(r *vh.Rand) layoutJ {
-	lay := layoutJ{NumShards: []int{1, 2, 3, 4, 5, 8}[r.Intn(6)]}
-	lay.Nodes = r.Range(1, 3)
-	if lay.Nodes > lay.NumShards {
-		lay.Nodes = lay.NumShards
-	}
-	lay.Place = make([]int, lay.NumShards)
-	perm := r.Perm(lay.NumShards)
-	for i, sh := range perm {
-		if i < lay.Nodes {
-			lay.Place[sh] = i // every node owns a shard
-		} else {
-			lay.Place[sh] = r.Intn(lay.Nodes)
-		}
-	}
-	switch x := r.Intn(100); {
-	case x < 55:
-	case x < 85:
-		lay.Brokers = 1
-	case x < 93:
-		lay.Brokers = 2
-	default:
-		lay.Self = true
-	}
-	return lay
-}
-
-var refLayout = layoutJ{NumShards: 1, Place: []int{0}, Nodes: 1}
-
-type runResult struct {
-	obs    []obsJ // per query
-	routes map[[2]int]int
-	fail   string
-}
-
-func runWorld(dir string, w *world, lay layoutJ, r *vh.Rand, only func(qi int, q *queryJ) bool) runResult {
-	res := runResult{routes: map[[2]int]int{}}
-	timeout := 20 * time.Second
-	if lay.Brokers >= 2 || lay.Self {
-		timeout = 1200 * time.Millisecond
-	}
-	c, err := newCluster(dir, lay, intervals, timeout)
-	if err != nil {
-		res.fail = "cluster: " + err.Error()
-		return res
-	}
-	defer func() { c.close(); _ = os.RemoveAll(dir) }()
-	for i, p := range w.Points {
-		sh, err := c.write(p.proto())
-		if err != nil {
-			res.fail = "write: " + err.Error()
-			return res
-		}
-		k := [2]int{p.Host, p.Zone}
-		if old, ok := res.routes[k]; ok && old != sh {
-			res.fail = fmt.Sprintf("series %v routed to shard %d and to shard %d", k, old, sh)
-			return res
-		}
-		res.routes[k] = sh
-		if w.FlushAt > 0 && i+1 == w.FlushAt && os.Getenv("C12_NOFLUSH") == "" {
-			if err := c.flushAll(); err != nil {
-				res.fail = "flush: " + err.Error()
-				return res
-			}
-		}
-	}
-	c.order = func(n int) []int { return r.Perm(n) }
-	for qi, q := range w.Queries {
-		if only != nil && !only(qi, q) {
-			res.obs = append(res.obs, obsJ{Code: 99})
-			continue
-		}
-		o, fail := c.run(q)
-		if fail != "" {
-			res.fail = fail + ": " + o.Err
-			return res
-		}
-		res.obs = append(res.obs, o)
-	}
-	return res
-}
-
-// time range and interval as the root computes them for the statement
-func planOf(q *queryJ) (lo, hi, ratio int64, err error) {
-	st, err := sql.Parse(q.SQL)
-	if err != nil {
-		return 0, 0, 0, err
-	}
-	stq := st.(*stmtpkg.Query)
-	querycontext.VerifCalcTimeRangeAndInterval(stq, models.Database{Name: logicalDB, Option: &option.DatabaseOption{Intervals: intervals}})
-	lo = (stq.TimeRange.Start - baseTime) / 10000
-	hi = (stq.TimeRange.End - baseTime) / 10000
-	return lo, hi, int64(stq.IntervalRatio), nil
-}
-
-func doWorld(out *vh.Out, root string, wi int, w *world, r *vh.Rand) {
-	ref := runWorld(filepath.Join(root, fmt.Sprintf("w%d-ref", wi)), w, refLayout, r, nil)
-	if ref.fail != "" {
-		out.Violation(0, "harness", "reference layout: "+ref.fail, w)
-		return
-	}
-	out.Coqf("Definition w%d_pts : list point := %s.\n", wi, pointsCoq(w.Points))
-	for li, lay := range w.Layouts {
-		broken := lay.Brokers >= 2 || lay.Self
-		groupRuns := 0
-		only := func(qi int, q *queryJ) bool {
-			// a layout whose group-by statements run into the timeout answers two of them only (each costs the timeout)
-			if broken && len(q.Group) > 0 && lay.Nodes > 1 {
-				groupRuns++
-				return groupRuns <= 2
-			}
-			return true
-		}
-		res := runWorld(filepath.Join(root, fmt.Sprintf("w%d-l%d", wi, li)), w, lay, r, only)
-		if res.fail != "" {
-			out.Violation(0, "harness", fmt.Sprintf("layout %+v: %s", lay, res.fail), w)
-			continue
-		}
-		for qi, q := range w.Queries {
-			o := res.obs[qi]
-			if o.Code == 99 {
-				continue
-			}
-			lo, hi, ratio, err := planOf(q)
-			if err != nil {
-				out.Violation(0, "harness", "plan: "+err.Error(), q)
-				continue
-			}
-			oref := ref.obs[qi]
-			out.Count(fmt.Sprintf("shards:%d", lay.NumShards))
-			out.Count(fmt.Sprintf("nodes:%d", lay.Nodes))
-			switch {
-			case lay.Self:
-				out.Count("compute:root-itself")
-			default:
-				out.Count(fmt.Sprintf("compute-brokers:%d", lay.Brokers))
-			}
-			out.Count(fmt.Sprintf("metric:%d", q.Metric))
-			out.Count(fmt.Sprintf("group-keys:%d", len(q.Group)))
-			out.Count(fmt.Sprintf("ratio:%d", ratio))
-			out.Count(fmt.Sprintf("ref-outcome:%d", oref.Code))
-			out.Count(fmt.Sprintf("outcome:%d", o.Code))
-			if w.FlushAt > 0 {
-				out.Count("world-with-flush")
-			}
-			if w.Dups {
-				out.Count("world-with-rewrites")
-			}
-			for _, it := range q.Items {
-				out.Count("item:" + funcNames[it.Func] + "/" + fieldName(it.Field))
-			}
-			differs := 0
-			if lay.NumShards > 1 {
-				differs++
-			}
-			if lay.Nodes > 1 {
-				differs++
-			}
-			if lay.Brokers > 0 || lay.Self {
-				differs++
-			}
-			idx := out.Case(map[string]interface{}{"kind": "pair", "world": w.Name, "points": w.Points, "flush_after": w.FlushAt, "rewrites": w.Dups,
-				"query": q, "plan": map[string]int64{"lo": lo, "hi": hi, "ratio": ratio},
-				"layout": lay, "routes": fmt.Sprint(res.routes), "reference": oref, "observed": o},
-				differs >= 2 && len(oref.Entries) > 0)
-			out.Check(idx, fmt.Sprintf("check_pair w%d_pts %s\n %s\n %s\n %s\n %s", wi, queryCoq(q, lo, hi, ratio),
-				descCoq(refLayout, ref.routes, oref.Order), descCoq(lay, res.routes, o.Order), obsCoq(oref), obsCoq(o)))
-		}
-	}
-}
-
-func directed() []*world {
-	var ws []*world
-	mk := func(q queryJ) *queryJ { q.render(); return &q }
-	var pts []point
-	for i := 0; i < 24; i++ {
-		h := i % 6
-		pts = append(pts, point{Metric: 0, Host: h, Zone: h % 3, Slot: (i * 7) % 30, Vals: map[int]int{0: 3 + i, 1: 40 - i, 2: 5 + 2*i, 3: i + 1, 4: 50 - i}})
-	}
-	for h := 0; h < 6; h++ {
-		pts = append(pts, point{Metric: 2, Host: h, Zone: h % 3, Slot: 3 + h, Vals: map[int]int{h % 2: 5 + h}})
-	}
-	ws = append(ws, &world{Name: "directed: several functions of one field, every aggregate type, down-sampling", Points: pts,
-		Queries: []*queryJ{
-			mk(queryJ{Metric: 0, Items: []itemJ{{0, 1}, {0, 3}}, Lo: 0, Hi: 40}),
-			mk(queryJ{Metric: 0, Items: []itemJ{{0, 0}, {0, 3}, {0, 2}}, Group: []int{1}, Lo: 0, Hi: 40, Ivl: 60}),
-			mk(queryJ{Metric: 0, Items: []itemJ{{1, 0}, {1, 3}, {2, 2}, {2, 0}}, Group: []int{0}, Lo: 2, Hi: 33, Ivl: 30}),
-			mk(queryJ{Metric: 0, Items: []itemJ{{3, 0}, {4, 0}, {3, 1}}, Group: []int{0, 1}, Lo: 0, Hi: 40}),
-		},
-		Layouts: []layoutJ{
-			{NumShards: 4, Place: []int{0, 0, 0, 0}, Nodes: 1},
-			{NumShards: 4, Place: []int{0, 1, 0, 1}, Nodes: 2},
-			{NumShards: 5, Place: []int{0, 1, 2, 2, 1}, Nodes: 3, Brokers: 1},
-		}})
-	pts2 := append([]point{}, pts...)
-	for j := 0; j < 5; j++ {
-		for h := 0; h < 6; h++ {
-			// six series write the same slots of the last field
-			pts2 = append(pts2, point{Metric: 0, Host: h, Zone: h % 3, Slot: 31 + j, Vals: map[int]int{3: 10*h + j + 1}})
-		}
-	}
-	ws = append(ws, &world{Name: "directed: behaviours on record (last over several series, a node that lacks a selected field, compute brokers)", Points: pts2,
-		Queries: []*queryJ{
-			mk(queryJ{Metric: 0, Items: []itemJ{{3, 0}}, Lo: 0, Hi: 40}),
-			mk(queryJ{Metric: 2, Items: []itemJ{{0, 0}, {1, 0}}, Lo: 0, Hi: 40}),
-			mk(queryJ{Metric: 0, Items: []itemJ{{0, 0}}, Group: []int{0}, Lo: 0, Hi: 40}),
-		},
-		Layouts: []layoutJ{
-			{NumShards: 4, Place: []int{0, 1, 2, 2}, Nodes: 3},
-			{NumShards: 4, Place: []int{0, 1, 2, 2}, Nodes: 3, Brokers: 2},
-			{NumShards: 4, Place: []int{0, 1, 2, 2}, Nodes: 3, Self: true},
-		}})
-	return ws
-}
-
-func main() {
-	cfg := vh.ParseFlags()
-	baseTime = time.Date(2023, 6, 15, 10, 0, 0, 0, time.Now().Location()).UnixMilli()
-	r := vh.NewRand(cfg.Seed)
-	out := vh.NewOut(cfg.Out, "From Coq Require Import List ZArith Bool.\nImport ListNotations.\nFrom LinDBV.C12 Require Import Model Check.\nOpen Scope Z_scope.\n")
-	out.ShardSize = 40
-	root, err := os.MkdirTemp("", "verif-c12-")
-	if err != nil {
-		panic(err)
-	}
-	defer os.RemoveAll(root)
-	wi := 0
-	for _, w := range directed() {
-		doWorld(out, root, wi, w, r)
-		wi++
-	}
-	onlyWorld := -1
-	if v := os.Getenv("C12_WORLD"); v != "" {
-		fmt.Sscanf(v, "%d", &onlyWorld)
-	}
-	for i := 0; i < cfg.N; i++ {
-		// every world draws from a stream of its own, so one world can be run again alone (C12_WORLD=<index>)
-		r = vh.NewRand(cfg.Seed*1000003 + uint64(i) + 17)
-		if onlyWorld >= 0 && i != onlyWorld {
-			wi++
-			continue
-		}
-		dups := r.Chance(25)
-		pts, flushAt := genPoints(r, dups)
-		w := &world{Name: fmt.Sprintf("random %d", i), Points: pts, FlushAt: flushAt, Dups: dups}
-		nq := r.Range(5, 8)
-		for j := 0; j < nq; j++ {
-			w.Queries = append(w.Queries, genQuery(r, pts, dups, flushAt > 0))
-		}
-		nl := r.Range(2, 4)
-		for j := 0; j < nl; j++ {
-			w.Layouts = append(w.Layouts, genLayout(r))
-		}
-		doWorld(out, root, wi, w, r)
-		wi++
-	}
-	out.Notes = append(out.Notes,
-		"one engine per layout; every storage node owns a database of its own (metadata, index, shards) inside it and is shown to its leaf processor under the logical database name",
-		"real code on the path: broker shard iterator (routing), DataFamily.WriteRows, query.MetricDataSearch with RootMetricContext, physical plan and task-send stages, intermediate and leaf task processors, task managers, the leaf pipeline (metadata lookup, tag filtering, grouping, data load, down-sampling, reduce), TimeSeriesList encoding, root merge and expression evaluation; replaced: the gRPC streams (requests are handed to the processors, responses are collected and handed to the receiver's task manager in a picked order) and the state manager's Choose / GetDatabaseCfg",
-		"every statement carries limit 100 (the default of 20 groups picks groups in map order); order-by statements are not generated")
-	out.Finish()
-}
+func main() { qh.MainC12() }
